@@ -378,3 +378,8 @@ mod tests {
         );
     }
 }
+
+#[cfg(kani)]
+mod verif_kani {
+    include!(concat!(env!("VERIF_HARNESS"), "/actix_http/h1_payload.rs"));
+}
